@@ -13,6 +13,7 @@ import (
 	"github.com/miekg/dns"
 	"github.com/semihalev/sdns/config"
 	"github.com/semihalev/sdns/internal/verif/srvh"
+	"github.com/semihalev/sdns/server"
 	"github.com/semihalev/sdns/internal/verif/vlib"
 )
 
@@ -223,6 +224,55 @@ func liveRun(entS string, peers []string, hdr string) vlib.Res {
 			}
 		}
 		outs = append(outs, "overlap="+ov)
+	}
+	// the engines' own entry, any source: one raw datagram / stream frame handed to
+	// ServeRaw (and to the inline pass + worker replay) on a strict-slot job — read
+	// just now, and read so long ago that its whole query budget is spent. Whatever
+	// the server does about a spent budget, a source outside the list hears nothing
+	// and nothing behind the list runs.
+	{
+		var raws []string
+		for i, ps := range peers {
+			a := parseAddr(ps)
+			allowed := naive(es, a)
+			var remote net.Addr = &net.UDPAddr{IP: net.IP(a.AsSlice()), Port: 5300 + i}
+			if i%2 == 1 {
+				remote = &net.TCPAddr{IP: net.IP(a.AsSlice()), Port: 5300 + i}
+			}
+			serve := func(age time.Duration, inline bool) (wrote bool, reached bool) {
+				qq := q.Copy()
+				qq.Id = uint16(0x5200 + i)
+				if age > 0 {
+					qq.Question[0].Name = fmt.Sprintf("stale%d.example.", i)
+				}
+				b, _ := qq.Pack()
+				before := l.Stub.Calls.Load()
+				job := &server.VerifJob{Remote: remote}
+				rt := time.Now().Add(-age)
+				if inline && l.Srv.InlineReady() {
+					if !l.Srv.ServeRawInline(job, b, rt) {
+						l.Srv.ServeRawReplay(job, b, rt)
+					}
+				} else {
+					l.Srv.ServeRaw(job, b, rt)
+				}
+				return len(job.Writes) > 0, l.Stub.Calls.Load() != before
+			}
+			wrote, reached := serve(0, false)
+			raws = append(raws, vlib.B(wrote))
+			if !allowed && (wrote || reached) {
+				fail("live/raw/denied-source-served")
+			}
+			if allowed && !wrote {
+				fail("live/raw/allowed-source-dropped")
+			}
+			for _, inline := range []bool{false, true} {
+				if w2, r2 := serve(30*time.Second, inline); !allowed && (w2 || r2) {
+					fail(fmt.Sprintf("live/raw/denied-source-served-after-its-budget-was-spent inline=%v", inline))
+				}
+			}
+		}
+		outs = append(outs, "raw="+strings.Join(raws, ""))
 	}
 	return vlib.Res{Impl: strings.Join(outs, " "), Oracle: or, Tags: "nt,live"}
 }
